@@ -765,6 +765,9 @@ def place(placement, l, r):
         return l, SandboxResult(r)
     if placement == "both":
         return SandboxResult(l), SandboxResult(r)
+    if placement == "same-proxy":           # the very same proxy object on both sides (only with case["same"])
+        p = SandboxResult(l)
+        return p, p
     raise ValueError(placement)
 
 
@@ -810,6 +813,8 @@ def case_operands(case):
     fam = case["family"]
     if fam in ("binary", "comparison"):
         l, r = build_value(case["left"], env), build_value(case["right"], env)
+        if case.get("same"):
+            r = l       # ONE object on both sides (x == x, x < x ...): identity shortcuts must not replace the object's own answer
         return env, [l, r], list(place(case["placement"], l, r))
     if fam in ("unary", "conversion") or (fam == "container" and case["op"] in CONV):
         v = build_value(case["left"], env)
@@ -997,6 +1002,8 @@ def signature(case):
     sig = {"op": case["op"]}
     if fam in ("binary", "comparison"):
         sig.update(left=kind_of(case["left"]), right=kind_of(case["right"]), placement=case["placement"])
+        if case.get("same"):
+            sig.update(same_object=True)
         if case["left"]["kind"] == "user" and case["right"]["kind"] == "user" and case["placement"] == "proxy-right" \
                 and subclass_reflected_first(case):
             sig = {"op": "binary", "cause": "subclass-reflected-first", "placement": "proxy-right"}
